@@ -20,6 +20,10 @@
       `buffer_len > 0 && agent_socket_send (...) >= 0` to be false: socket error, message does not fit, and the table of 200 saved
       transaction ids of the item's StunAgent being full (an alternate-server answer for one TURN item cancels its siblings'
       requests without forgetting their ids);
+    - an alternate-server answer (3xx + ALTERNATE-SERVER) is followed only while the item has followed fewer than
+      NICE_DISCOVERY_MAX_REDIRECTS of them ([d_redir], [c_maxredir]; /repo 1878027), otherwise the item is given up like on any error; a
+      redirection followed by a TURN allocation also re-queues the not-done allocations of the same stream, relay type and server
+      WITHOUT counting against them;
     - [EvCand i] = a success answer was consumed for item [i] and its address handed to discovery_add_*_candidate
       (what the candidate list then keeps is Agent.GatherModel).
     No proofs in this file. *)
@@ -44,18 +48,20 @@ Record item := {
   d_resp_realm : Z;  (* REALM of stun_resp_msg (copied into the next request), 0 = none *)
   d_timer : timer;   (* cand->timer *)
   d_next : Z;        (* cand->next_tick, microseconds *)
-  d_auth : Z         (* cand->auth_retries *)
+  d_auth : Z;        (* cand->auth_retries *)
+  d_redir : Z        (* cand->redirects: ALTERNATE-SERVER answers this item has followed *)
 }.
 
 Record dcfg := {
   c_T : Z;        (* agent->stun_initial_timeout, ms *)
   c_N : Z;        (* agent->stun_max_retransmissions *)
-  c_maxauth : Z   (* NICE_DISCOVERY_MAX_AUTH_RETRIES *)
+  c_maxauth : Z;  (* NICE_DISCOVERY_MAX_AUTH_RETRIES *)
+  c_maxredir : Z  (* NICE_DISCOVERY_MAX_REDIRECTS *)
 }.
 
-Definition mk (it : item) (srv : Z) (p dn b : bool) (tid : Z) (lv : bool) (rl rr : Z) (tm : timer) (nx au : Z) : item :=
+Definition mk (it : item) (srv : Z) (p dn b : bool) (tid : Z) (lv : bool) (rl rr : Z) (tm : timer) (nx au rd : Z) : item :=
   {| d_type := d_type it; d_grp := d_grp it; d_srv := srv; d_pending := p; d_done := dn; d_buf := b; d_tid := tid; d_live := lv;
-     d_realm := rl; d_resp_realm := rr; d_timer := tm; d_next := nx; d_auth := au |}.
+     d_realm := rl; d_resp_realm := rr; d_timer := tm; d_next := nx; d_auth := au; d_redir := rd |}.
 
 (** g_get_monotonic_time () for the instant [now] *)
 Definition mono (now : tv) : Z := sec now * 1000000 + usec now.
@@ -64,25 +70,25 @@ Definition mono (now : tv) : Z := sec now * 1000000 + usec now.
 Definition fresh_item (ty : dtype) (grp srv : Z) : item :=
   {| d_type := ty; d_grp := grp; d_srv := srv; d_pending := false; d_done := false; d_buf := false; d_tid := 0; d_live := false;
      d_realm := 0; d_resp_realm := 0; d_timer := {| deadline := {| sec := 0; usec := 0 |}; delay := 0; retrans := 0; maxr := 0 |};
-     d_next := 0; d_auth := 0 |}.
+     d_next := 0; d_auth := 0; d_redir := 0 |}.
 
 (* ---- what the tick does to one item ---- *)
 
 (* pending != TRUE, request created and sent: stun_timer_start, next_tick = now *)
 Definition it_start (c : dcfg) (now : tv) (tid : Z) (it : item) : item :=
-  mk it (d_srv it) true (d_done it) true tid true (d_resp_realm it) (d_resp_realm it) (timer_start now (c_T c) (c_N c)) (mono now) (d_auth it).
+  mk it (d_srv it) true (d_done it) true tid true (d_resp_realm it) (d_resp_realm it) (timer_start now (c_T c) (c_N c)) (mono now) (d_auth it) (d_redir it).
 (* pending != TRUE, "Error starting discovery, skipping the item." *)
 Definition it_fail (it : item) : item :=
-  mk it (d_srv it) true true false (d_tid it) (d_live it) (d_realm it) (d_resp_realm it) (d_timer it) (d_next it) (d_auth it).
+  mk it (d_srv it) true true false (d_tid it) (d_live it) (d_realm it) (d_resp_realm it) (d_timer it) (d_next it) (d_auth it) (d_redir it).
 (* "STUN discovery was cancelled, marking discovery done." *)
 Definition it_cancel (it : item) : item :=
-  mk it (d_srv it) (d_pending it) true (d_buf it) (d_tid it) (d_live it) (d_realm it) (d_resp_realm it) (d_timer it) (d_next it) (d_auth it).
+  mk it (d_srv it) (d_pending it) true (d_buf it) (d_tid it) (d_live it) (d_realm it) (d_resp_realm it) (d_timer it) (d_next it) (d_auth it) (d_redir it).
 (* STUN_USAGE_TIMER_RETURN_TIMEOUT: forget the transaction, done *)
 Definition it_timeout (it : item) : item :=
-  mk it (d_srv it) (d_pending it) true false (d_tid it) false (d_realm it) (d_resp_realm it) (d_timer it) (d_next it) (d_auth it).
+  mk it (d_srv it) (d_pending it) true false (d_tid it) false (d_realm it) (d_resp_realm it) (d_timer it) (d_next it) (d_auth it) (d_redir it).
 (* RETRANSMIT / SUCCESS: timer as refreshed, next_tick = now + timeout * 1000 *)
 Definition it_rearm (it : item) (tm : timer) (nx : Z) : item :=
-  mk it (d_srv it) (d_pending it) (d_done it) (d_buf it) (d_tid it) (d_live it) (d_realm it) (d_resp_realm it) tm nx (d_auth it).
+  mk it (d_srv it) (d_pending it) (d_done it) (d_buf it) (d_tid it) (d_live it) (d_realm it) (d_resp_realm it) tm nx (d_auth it) (d_redir it).
 
 Record tres := { r_item : item; r_nd : Z (* contribution to not_done *); r_paced : bool (* ++need_pacing *);
                  r_started : bool (* went through the pending != TRUE block *); r_sent : bool (* a request was (re)transmitted *) }.
@@ -148,19 +154,22 @@ Inductive kind :=
 
 (* d->stun_message.buffer = NULL; d->done = TRUE (the StunAgent has consumed the id) *)
 Definition it_finish (it : item) : item :=
-  mk it (d_srv it) (d_pending it) true false (d_tid it) false (d_realm it) (d_resp_realm it) (d_timer it) (d_next it) (d_auth it).
+  mk it (d_srv it) (d_pending it) true false (d_tid it) false (d_realm it) (d_resp_realm it) (d_timer it) (d_next it) (d_auth it) (d_redir it).
 (* only the StunAgent's sent id is consumed *)
 Definition it_consume (it : item) : item :=
-  mk it (d_srv it) (d_pending it) (d_done it) (d_buf it) (d_tid it) false (d_realm it) (d_resp_realm it) (d_timer it) (d_next it) (d_auth it).
+  mk it (d_srv it) (d_pending it) (d_done it) (d_buf it) (d_tid it) false (d_realm it) (d_resp_realm it) (d_timer it) (d_next it) (d_auth it) (d_redir it).
 (* 401/438: auth_retries++, stun_resp_msg = *resp, pending = FALSE *)
 Definition it_retry (realm : Z) (it : item) : item :=
-  mk it (d_srv it) false (d_done it) (d_buf it) (d_tid it) false (d_realm it) realm (d_timer it) (d_next it) (d_auth it + 1).
-(* server-reflexive discovery, alternate server: d->server = alt, pending = FALSE *)
+  mk it (d_srv it) false (d_done it) (d_buf it) (d_tid it) false (d_realm it) realm (d_timer it) (d_next it) (d_auth it + 1) (d_redir it).
+(* server-reflexive discovery, alternate server followed: d->server = alt, d->redirects++, pending = FALSE *)
 Definition it_redirect (alt : Z) (it : item) : item :=
-  mk it alt false (d_done it) (d_buf it) (d_tid it) false (d_realm it) (d_resp_realm it) (d_timer it) (d_next it) (d_auth it).
+  mk it alt false (d_done it) (d_buf it) (d_tid it) false (d_realm it) (d_resp_realm it) (d_timer it) (d_next it) (d_auth it) (d_redir it + 1).
+(* priv_handle_turn_alternate_server on the answered item before its loop: disco->redirects++ (the StunAgent has consumed the id) *)
+Definition it_count_redirect (it : item) : item :=
+  mk it (d_srv it) (d_pending it) (d_done it) (d_buf it) (d_tid it) false (d_realm it) (d_resp_realm it) (d_timer it) (d_next it) (d_auth it) (d_redir it + 1).
 (* priv_handle_turn_alternate_server on one item: request cancelled, server = alt, pending = FALSE (sent id NOT forgotten) *)
 Definition it_reset (alt : Z) (it : item) : item :=
-  mk it alt false (d_done it) false (d_tid it) (d_live it) (d_realm it) (d_resp_realm it) (d_timer it) (d_next it) (d_auth it).
+  mk it alt false (d_done it) false (d_tid it) (d_live it) (d_realm it) (d_resp_realm it) (d_timer it) (d_next it) (d_auth it) (d_redir it).
 
 Definition is_relay (it : item) : bool := match d_type it with Relay => true | Srflx => false end.
 
@@ -194,11 +203,15 @@ Definition answer (c : dcfg) (i : nat) (t : Z) (k : kind) (s : dstate) : dstate 
       | KSuccess => (st (upd_nth i it_finish l) 0, [EvCand i])
       | KInvalid => (st (upd_nth i it_consume l) 0, [])
       | KAlternate alt =>
-        match d_type it with
-        | Srflx => (st (upd_nth i (it_redirect alt) l) 1, [])
-        | Relay => let l1 := upd_nth i it_consume l in
-                   (st (map (fun x => if reset_hit it x then it_reset alt x else x) l1) (countb (reset_hit it) l1), [])
-        end
+        (* a redirection is followed only while the item has followed fewer than NICE_DISCOVERY_MAX_REDIRECTS; otherwise it is given up
+           like on any other error *)
+        if d_redir it <? c_maxredir c then
+          match d_type it with
+          | Srflx => (st (upd_nth i (it_redirect alt) l) 1, [])
+          | Relay => let l1 := upd_nth i it_count_redirect l in
+                     (st (map (fun x => if reset_hit it x then it_reset alt x else x) l1) (countb (reset_hit it) l1), [])
+          end
+        else (st (upd_nth i it_finish l) 0, [])
       | KError code realm =>
         match d_type it with
         | Srflx => (st (upd_nth i it_finish l) 0, [])
